@@ -654,6 +654,15 @@ class Fn:
 
     def call_expr(self, t, bb, depth=0, stack=None):
         args = [self.operand_expr(a, depth + 1, stack) for a in t['args']]
+        # `a.checked_sub(b).expect(..)` / `.unwrap()` is the checked `a - b` of a debug build spelled out: one expression
+        nm = callee_name(t)
+        if args and nm.rsplit('::', 1)[-1] in ('expect', 'unwrap') and 'ption' in nm:
+            inner = args[0].strip()
+            op = {'checked_add': 'Add', 'checked_sub': 'Sub', 'checked_mul': 'Mul'}.get(inner.op.rsplit('::', 1)[-1]) if inner.kind == 'call' and inner.op else None
+            if op and len(inner.args) == 2:
+                e = E('binop', op=op, a=inner.args[0], b=inner.args[1], bb=bb, info={'checked': True, 'line': t.get('line')})
+                e.pos = Pos(bb, len(self.blocks[bb]['st']))
+                return e
         e = E('call', op=callee_name(t), args=args, bb=bb,
                  info={'line': t.get('line'), 'callee': t.get('calleep'), 'gen': t.get('gen', ''),
                        'local': t.get('local'), 'key': t.get('res') or t.get('callee')})
@@ -1176,6 +1185,7 @@ class Program:
             self.renamed_fields = normalize.rename_private_fields(crates, table)
             self.inlined = normalize.inline_new_helpers(crates, table)
             self.desugared = normalize.desugar_option_combinators(crates, table)
+            self.desugared += normalize.desugar_bool_then_some(crates, table)
             for _round in range(3):     # (chains: res.map(..).map_err(..))
                 more = normalize.desugar_result_combinators(crates, table)
                 self.desugared += more
